@@ -255,7 +255,7 @@ subroutine volume_trans(nc, T, P, mass, Mol_wt, Pc, Tc, Vc, C_pen, C_pen_T, &
 	else
 		! Use the user-defined Peneloux parameters following equation 5.9 in
 		! Pedersen et al. (2015) Phase Behavior of Petroleum Reservoir Fluids
-		vt = C_pen(:) + C_pen_T(:) * (T - 288.15)
+		vt = C_pen(:) + C_pen_T(:) * (T - 288.15D0)
 		
 	end if
 	
@@ -728,7 +728,7 @@ subroutine viscosity(nc, T, P, mass, Mol_wt, Pc, Tc, Vc, omega, delta, Aij, &
         ! Viscosity of methane (Equation 10.29) -- reported in (Pa s)
         eta_ch4(i,1) = (eta_0 + eta_1 + (htan + 1.0D0) / 2.0D0 * &
             &          delta_eta_p(i,1) + (1.0D0 - htan) / 2.0D0 * &
-            &          delta_eta_pp(i,1)) * 1.0e-7
+            &          delta_eta_pp(i,1)) * 1.0D-7
         
     end do
     
